@@ -318,14 +318,18 @@ def oracle_op(op, out, hits):
         return None
     if kind == "cut":
         cap, src, cutoff, ralign, buflen = int(tok[1]), unhx(tok[2]), int(tok[3]), tok[4] != "0", int(tok[5])
+        if buflen == 0:
+            # not in the domain of the static helper (no caller can pass it): the harness does not call it
+            return None if out == "EDOM" else "cut: buf_len 0 executed (%r)" % out[:40]
         p = out.split(None, 1)
         text, nul, maxw = parse_report(p[1] if len(p) > 1 else "")
         if text == "bad":
             return "unparsable result %r" % out[:60]
         if maxw >= buflen:
             return "cut: wrote index %d with buf_len %d" % (maxw, buflen)
-        if buflen == 0:
-            return None if p[0] == "0" else "cut: returned %s with buf_len 0" % p[0]
+        if buflen == 1:
+            # room for the terminator only: nothing is copied, the return value is 0
+            return None if p[0] == "0" else "cut: returned %s with buf_len 1" % p[0]
         if text is None:
             return "cut: destination not NUL-terminated (buf_len %d)" % buflen
         w = cutoff if cutoff else len(src)
@@ -606,7 +610,8 @@ def gen_fset_op(rng):
 
 
 def gen_cut_op(rng):
-    buflen = rng.choice([0, 1, 2, 3, 4, 8, 16, 64, rng.randrange(0, 300)])
+    # buf_len >= 1: the domain of the helper (its callers pass >= 2, Props.C13.caller_buf_len_ge_two)
+    buflen = rng.choice([1, 2, 2, 3, 4, 8, 16, 64, rng.randrange(1, 300)])
     src = text(rng, rng.choice([0, 1, 2, 3, 7, 8, 15, 16, 17, 63, 64, 65, rng.randrange(0, 400)]))
     cutoff = rng.choice([0, 0, 1, 2, 5, 8, 16, 64, 300, 5000, (1 << 64) - 1, rng.randrange(0, 400)])
     return "cut %d %s %d %d %d" % (buflen, hx(src), cutoff, rng.randrange(2), buflen)
